@@ -26,6 +26,10 @@ type UDPRound struct {
 	End       string `json:"end"`       // close | closeerr | rdeadline | udptimeout | none (only as the last round)
 	DelayUs   int    `json:"delay_us,omitempty"`
 	Closers   int    `json:"closers,omitempty"` // close / closeerr: number of goroutines calling it at once
+	// Race: datagrams the remote sends while the session is being ended (last round only): they are
+	// delivered on the ending session or start the next one - and whatever they start must be closed
+	// like every other session when the engine stops
+	Race int `json:"race,omitempty"`
 }
 
 // UDPLifeCase is a case of the UDP part of C03.
@@ -61,6 +65,9 @@ func genUDPLifeCase(r *simrt.Rand, tier string) *UDPLifeCase {
 			}
 			if j == n-1 && r.Bool(0.3) {
 				rd.End = "none"
+			}
+			if j == n-1 && rd.End != "none" && r.Bool(0.4) {
+				rd.Race = r.Range(1, 3)
 			}
 			rounds = append(rounds, rd)
 		}
@@ -241,6 +248,13 @@ func runUDPLife(t *testing.T, ci interface{}, trace bool) *common.Outcome {
 					}
 					var want error
 					any := false
+					if rd.Race > 0 {
+						simrt.GoNamed("udp-racer", func() {
+							for k := 0; k < rd.Race; k++ {
+								w.K.PeerSendTo(r.sock, []byte{'z'}, w.KAddr)
+							}
+						})
+					}
 					switch rd.End {
 					case "none":
 						return
@@ -285,10 +299,26 @@ func runUDPLife(t *testing.T, ci interface{}, trace bool) *common.Outcome {
 		simrt.WaitStuck("remotes-done", 20*time.Second, func() bool { return done >= len(c.Remotes) })
 		w.EnterFair()
 		simrt.Quiesce(100 * time.Millisecond)
+		// ... whatever ends it: engine Stop. Every session that is still open now (last rounds
+		// without an end, sessions started by a racing datagram) is ended by Stop, which delivers
+		// the close notifications before it returns.
+		stopped := false
+		simrt.GoNamed("stopper", func() {
+			w.StopAll()
+			stopped = true
+		})
+		simrt.WaitStuck("engine-stop", 5*time.Second, func() bool { return stopped })
 		for i, r := range remotes {
 			for j, s := range r.sessions {
 				if s.closes > 1 {
 					w.Fail("C03", "close-twice", "udp", "remote %d session %d: %d close notifications", i, j, s.closes)
+				}
+				if s.closes == 0 {
+					how := "Stop has returned"
+					if !stopped {
+						how = "Stop does not return"
+					}
+					w.Fail("C03", "udp-close-notification-missing", c.Eng.Mode+"/stop", "remote %d, session %d of %d: opened, never closed by anything else, and no close notification although the engine was stopped (%s)", i, j, len(r.sessions), how)
 				}
 			}
 		}
